@@ -1,57 +1,47 @@
 /-
-Line-protocol driver: one JSON object per input line, one JSON object per output line.
-Floats travel as IEEE-754 bit patterns (decimal `Nat`), never as decimal fractions.
-Imports only the Mathlib-free models and the regenerated `Gen` modules.
+Line-protocol driver: one JSON object per input line ({"op": name, ...}), one JSON object per output
+line ({"error": msg} on failure). Floats travel as IEEE-754 bit patterns, never as decimal fractions.
+Imports only the Mathlib-free models and the regenerated Gen modules; ops live in Xrfmv/Drv/Cnn.lean.
 -/
-import Lean.Data.Json
-import Xrfmv.Model.FitLoop
+import Xrfmv.Drv.C01
+import Xrfmv.Drv.C02
+import Xrfmv.Drv.C03
+import Xrfmv.Drv.C04
+import Xrfmv.Drv.C05
+import Xrfmv.Drv.C06
+import Xrfmv.Drv.C07
+import Xrfmv.Drv.C08
+import Xrfmv.Drv.C09
+import Xrfmv.Drv.C10
+import Xrfmv.Drv.C11
+import Xrfmv.Drv.C12
+import Xrfmv.Drv.C13
+import Xrfmv.Drv.C14
+import Xrfmv.Drv.C15
+import Xrfmv.Drv.C16
+import Xrfmv.Drv.C17
+import Xrfmv.Drv.C18
+import Xrfmv.Drv.C19
+import Xrfmv.Drv.C20
 
-open Lean Xrfmv
+open Lean Xrfmv Xrfmv.Drv
 
-namespace Drv
-
-def getF (j : Json) (k : String) : Except String Float := do
-  let n ← j.getObjValAs? Nat k
-  pure (Float.ofBits (UInt64.ofNat n))
-
-def getFs (j : Json) (k : String) : Except String (Array Float) := do
-  let a ← j.getObjValAs? (Array Nat) k
-  pure (a.map fun n => Float.ofBits (UInt64.ofNat n))
-
-def optNat : Option Nat → Json
-  | some n => toJson n
-  | none => Json.null
-
-def opFitLoop (j : Json) : Except String Json := do
-  let cfg : FitLoop.Cfg Float := {
-    maximize := ← j.getObjValAs? Bool "maximize"
-    returnBest := ← j.getObjValAs? Bool "returnBest"
-    earlyStop := ← j.getObjValAs? Bool "earlyStop"
-    adaptive := ← j.getObjValAs? Bool "adaptive"
-    mult := ← getF j "mult"
-    iters := ← j.getObjValAs? Nat "iters" }
-  let sc ← getFs j "scores"
-  if sc.size < cfg.iters + 1 then throw "bad-op: history shorter than iters+1"
-  if sc.any (fun x => x.isNaN) then throw "bad-op: NaN score"
-  let r := FitLoop.fit cfg (fun i => sc.getD i 0.0)
-  pure <| Json.mkObj [("w", optNat r.fin.w), ("m", toJson r.fin.m), ("sq", toJson r.fin.sq),
-    ("bw", toJson r.fin.bw), ("bestIter", optNat r.bestIter), ("evals", toJson r.evals),
-    ("stopped", toJson r.stopped)]
+def allOps : List (String × Handler) :=
+  C01.ops ++ C02.ops ++ C03.ops ++ C04.ops ++ C05.ops ++ C06.ops ++ C07.ops ++ C08.ops ++ C09.ops ++ C10.ops ++
+  C11.ops ++ C12.ops ++ C13.ops ++ C14.ops ++ C15.ops ++ C16.ops ++ C17.ops ++ C18.ops ++ C19.ops ++ C20.ops
 
 def dispatch (j : Json) : Except String Json := do
   let op ← j.getObjValAs? String "op"
-  match op with
-  | "fitloop" => opFitLoop j
-  | "ping" => pure (Json.mkObj [("pong", toJson true)])
-  | _ => throw s!"bad-op: unknown op {op}"
-
-end Drv
+  if op == "ping" then return Json.mkObj [("pong", toJson true)]
+  match allOps.lookup op with
+  | some h => h j
+  | none => throw s!"bad-op: unknown op {op}"
 
 partial def loop (h : IO.FS.Stream) (out : IO.FS.Stream) : IO Unit := do
   let line ← h.getLine
   if line.isEmpty then return ()
   let res := match Json.parse line with
-    | .ok j => Drv.dispatch j
+    | .ok j => dispatch j
     | .error e => .error s!"bad-json: {e}"
   match res with
   | .ok r => out.putStrLn (Json.compress r)
